@@ -2,6 +2,8 @@ package props
 
 import (
 	"context"
+	"fmt"
+	"strings"
 	"sync"
 
 	"cuelabs.dev/go/oci/ociregistry"
@@ -126,4 +128,68 @@ func (w *gatedWriter) Cancel() error {
 func (w *gatedWriter) Commit(d ociregistry.Digest) (ociregistry.Descriptor, error) {
 	defer w.m.enter()()
 	return w.BlobWriter.Commit(d)
+}
+
+// ---- members whose upload IDs change as the upload progresses ----
+
+// genIDMember wraps a registry so that the ID of an upload session carries a generation number that
+// advances with every successful Write (the BlobWriter contract allows the ID to change after Write
+// and Close; ociclient's does, being the Location of the last response). Resuming with an ID of an
+// earlier generation fails, as it would against a registry that hands out one-time locations.
+type genIDMember struct {
+	ociregistry.Interface
+	mu  *sync.Mutex
+	gen map[string]int // base ID -> current generation
+}
+
+func newGenIDMember(r ociregistry.Interface) *genIDMember {
+	return &genIDMember{Interface: r, mu: new(sync.Mutex), gen: map[string]int{}}
+}
+
+type genIDWriter struct {
+	ociregistry.BlobWriter
+	m    *genIDMember
+	base string
+}
+
+func (w *genIDWriter) ID() string {
+	w.m.mu.Lock()
+	defer w.m.mu.Unlock()
+	return fmt.Sprintf("%s~%d", w.base, w.m.gen[w.base])
+}
+
+func (w *genIDWriter) Write(p []byte) (int, error) {
+	n, err := w.BlobWriter.Write(p)
+	if err == nil && n > 0 {
+		w.m.mu.Lock()
+		w.m.gen[w.base]++
+		w.m.mu.Unlock()
+	}
+	return n, err
+}
+
+func (m *genIDMember) PushBlobChunked(ctx context.Context, repo string, chunk int) (ociregistry.BlobWriter, error) {
+	w, err := m.Interface.PushBlobChunked(ctx, repo, chunk)
+	if err != nil {
+		return nil, err
+	}
+	return &genIDWriter{BlobWriter: w, m: m, base: w.ID()}, nil
+}
+
+func (m *genIDMember) PushBlobChunkedResume(ctx context.Context, repo, id string, off int64, chunk int) (ociregistry.BlobWriter, error) {
+	base, genText, ok := strings.Cut(id, "~")
+	if !ok {
+		return nil, fmt.Errorf("%w: upload ID %q was not issued by this registry", ociregistry.ErrBlobUploadUnknown, id)
+	}
+	m.mu.Lock()
+	cur := m.gen[base]
+	m.mu.Unlock()
+	if genText != fmt.Sprint(cur) {
+		return nil, fmt.Errorf("%w: stale upload ID (generation %s, current %d)", ociregistry.ErrBlobUploadUnknown, genText, cur)
+	}
+	w, err := m.Interface.PushBlobChunkedResume(ctx, repo, base, off, chunk)
+	if err != nil {
+		return nil, err
+	}
+	return &genIDWriter{BlobWriter: w, m: m, base: base}, nil
 }
